@@ -8,7 +8,7 @@ Supported on top of the base translator (everything else falls through and fails
     np.cos / np.sin / np.sqrt / ... of an array (map),   a ** k, a * s, s * a, a + b, ... (broadcast / zip)
     np.meshgrid(x, y)        both results flattened row-major (all later uses are elementwise + mask)
     a <= s                   boolean array (kind 'blist');   a[mask]  ->  mask_filter
-    np.outer(a, b).flatten() np.min(a)
+    np.outer(a, b).flatten() np.min(a) np.max(a)
   dict literals with int keys (kind 'dict'):  k not in d,  d[k]
   opaque calls returning a pair (spec['opaque_pairs']) and  1 - np.array(<pair>)
   opaque calls whose every occurrence is a different input (spec['opaque_seq'] = {dotted: kind})
@@ -174,6 +174,11 @@ class C03Kernel(Kernel):
                 if a.kind == 'list':
                     return V('num', app('min_list', a.coq))
                 raise Unsupported('np.min of ' + a.kind)
+            if name == 'max' and len(args) == 1 and not node.keywords:
+                a = self.expr(args[0], env)
+                if a.kind == 'list':
+                    return V('num', app('max_list', a.coq))
+                raise Unsupported('np.max of ' + a.kind)
             if name in NP_UNARY and len(args) == 1:
                 v = self.expr(args[0], env)
                 if v.kind == 'list':
